@@ -5,6 +5,7 @@ use serde_json::Value as Json;
 
 pub mod c01;
 pub mod c02;
+pub mod c03;
 pub mod c05;
 pub mod c06;
 pub mod c07;
@@ -27,7 +28,7 @@ pub struct Prop {
 }
 
 pub fn all() -> Vec<Prop> {
-    vec![c01::PROP, c02::PROP, c05::PROP, c06::PROP, c07::PROP, c10::PROP, c11::PROP, c12::PROP, c13::PROP, c15::PROP, c20::PROP]
+    vec![c01::PROP, c02::PROP, c03::PROP, c05::PROP, c06::PROP, c07::PROP, c10::PROP, c11::PROP, c12::PROP, c13::PROP, c15::PROP, c20::PROP]
 }
 
 pub fn find(id: &str) -> Option<Prop> {
